@@ -49,6 +49,7 @@ KINDS = {
     "doc-large": "/big.txt",
     "menu": "/docs",
     "menu-root": "/",
+    "menu-via-symlink": "/docs-link",
     "html": "/page.html",
     "mbox-folder": "/mail.mbox",
     "mbox-message": "/mail.mbox|/MBOX-MESSAGE/2",
@@ -136,7 +137,8 @@ def make_spec(bigsize=9000, nmsg=3, ndocs=4):
          "d": {"b64": base64.b64encode(gzip.compress(b"a long compressed document line 0123456789\n" * 600, mtime=0)).decode()}},
         {"p": "gm", "k": "dir"},
         {"p": "gm/gophermap", "k": "file",
-         "d": "Welcome\n0A file\tfile.txt\n1Docs\t/docs\nhSite\tURL:http://example.org/\n"},
+         "d": "Welcome\n0A file\tfile.txt\n1Docs\t/docs\nhSite\tURL:http://example.org/\n"
+              "i\t\tnull.host\t1\niAn info line in full form\tfake\t(NULL)\t0\n\n0Last\tfile.txt\texample.org\t70\n"},
         {"p": "gm/file.txt", "k": "file", "d": "in gm\n"},
         {"p": "hello.pyg", "k": "file", "d": PYG, "x": True},
     ]
@@ -161,6 +163,8 @@ def make_spec(bigsize=9000, nmsg=3, ndocs=4):
     spec.append({"p": "meta2/.links", "k": "file", "d": "Path=./twice.txt\nType=X\n"})
     spec.append({"p": "docs/sub", "k": "dir"})
     spec.append({"p": "docs/sub/deep.txt", "k": "file", "d": "deep\n"})
+    # another name for the same directory (a symlink that stays inside the root)
+    spec.append({"p": "docs-link", "k": "symlink", "to": "docs"})
     spec.append({"p": "docs/empty.txt", "k": "file", "d": ""})
     for i in range(ndocs):
         spec.append({"p": "docs/doc%d.txt" % i, "k": "file", "d": "doc %d\n" % i})
@@ -272,15 +276,23 @@ def execute(sc, tape=None):
             else:
                 # classes already logged by the fault-free run of the same request are
                 # not consequences of the injected failure (they are C03's business)
-                others = [r for r in recs if r[1] != want_cls and r[1] not in base_classes]
+                family = {want_cls}
+                if sc["error"] == "ECONNRESET":
+                    family.add("BrokenPipeError")   # what the kernel reports for writes after the reset
+                others = [r for r in recs if r[1] not in family and r[1] not in base_classes]
                 mine = [l for l in run.log if "10.9.8.7" in l and want_cls in l]
                 if others:
                     viol = {"oracle": "logged-under-own-class",
                             "signature": dict(sig, oracle="logged-under-own-class", logged_as=others[0][1]),
                             "detail": "log: %r" % ([r[2] for r in recs],)}
                 elif not mine:
+                    vsig = dict(sig, oracle="logged-with-address")
+                    if run.counters.get("child_write_failed_silently"):
+                        # the failing write was the child process's own (it was given the client
+                        # socket as stdout): the server process never saw the error
+                        vsig["via"] = "child-process-writes-to-client-socket"
                     viol = {"oracle": "logged-with-address",
-                            "signature": dict(sig, oracle="logged-with-address"),
+                            "signature": vsig,
                             "detail": "no record '10.9.8.7 ... EXCEPTION %s'; log: %r" % (want_cls, run.log[-5:])}
             if viol is None:
                 leaked = [f._rel for f in run.fs.leaked_files()]
